@@ -42,10 +42,10 @@ CHECKS = {
    text="Every schedule up to the bound of a reader (List at R, Watch from R+1), 1-2 writers and optionally a compactor; for every received event revision and the final committed revision, List at that revision must equal the first list with the events applied.",
    ref="4/C06"),
  "C13": dict(cat="model_checking", tech="explicit-state BFS over write histories x exhaustive enumeration of partition border subsets and orders injected under the real scanner; four read paths compared with the unpartitioned snapshot",
-   text="In every state of the history BFS every single border and every pair (thorough: triple) of borders from stored and well-formed internal keys, reported in every order, is installed; List, Count, whole-interval stream and the concatenation of per-advertised-partition streams at every revision are compared with the model; batch revisions and terminators are checked.",
+   text="In every state of the history BFS every single border and every pair (thorough: also triples, and real region splits of the tikv mock cluster) of borders from stored and well-formed internal keys, reported in every order, is installed; List, Count, whole-interval stream and the concatenation of per-advertised-partition streams at every revision are compared with the model; batch revisions and terminators are checked.",
    ref="4/C13"),
- "C09": dict(cat="fault_enumeration", tech="exhaustive enumeration of unknown-outcome fault placements, variants, continuations, clock scripts and repair-commit fates on the real backend with the real sequencer and retry loop under a virtual clock",
-   text="Every (history, faulted write, applied/not applied, continuation up to 2-3 steps incl. compaction and the retry interval elapsing, fate of the repair commit) combination is executed; the client must get an error, the read revision must keep up, compaction must stay below the unresolved revision, and after the repair ran the store must equal snapshot + delivered events with every acknowledged write delivered and durable.",
+ "C09": dict(cat="fault_enumeration", tech="exhaustive enumeration of unknown-outcome fault placements, variants, continuations, clock scripts and repair-commit fates on the real backend with the real sequencer and retry loop under a virtual clock; plus preemption-bounded DFS over the schedules of the retry loop against a concurrent writer on the same key",
+   text="Every (history, faulted write, applied/not applied, continuation up to 2-3 steps incl. compaction and the retry interval elapsing, fate of the repair commit) combination is executed; the client must get an error, the read revision must keep up, compaction must stay below the unresolved revision, and after the repair ran the store must equal snapshot + delivered events with every acknowledged write delivered and durable, every key readable and conditionally writable at the revision the events end at. The retry loop is also explored under every schedule (bound 1 quick / 2 thorough) against a client writing the same key and a compaction request.",
    ref="4/C09"),
  "C14": dict(cat="model_checking", tech="stateless model checking of the real resource lock: all schedules at engine-call granularity (unbounded for 2 candidates x 1 round) with state cache; oracle on the recorded engine trace",
    text="Every interleaving of the get/create/update steps of 2-3 candidates over one store, from an absent and from a held record, on memkv, badger and tikv-mock; at most one create takes effect and every effective update was conditioned on exactly the previously stored bytes.",
